@@ -69,6 +69,13 @@ def ci_rec(lo_f, hi_f, unit, tiny=False):
     return [lo, hi, 0, mid if mid is not None else LIM, half if half is not None else LIM]
 
 
+TINY = {"1e-9": 1e-9, "1e-12": 1e-12, "1e-15": 1e-15}
+
+
+def alpha_value(a):
+    return TINY[a] if a in TINY else int(a) / 1000.0
+
+
 def eval_block(mats, scale, via, dtype, alphas):
     """mats: int array (..., 2, 2) in base units.  Returns dict of result arrays."""
     from score_analysis import ConfusionMatrix, metrics
@@ -93,7 +100,7 @@ def eval_block(mats, scale, via, dtype, alphas):
     for b in BASIC:
         out["basic"][b] = call(b)
     for c in CIS:
-        out["ci"][c] = {a: call(c + "_ci", alpha=a / 1000.0) for a in alphas}
+        out["ci"][c] = {a: call(c + "_ci", alpha=alpha_value(a)) for a in alphas}
     return out
 
 
@@ -137,7 +144,7 @@ def events(cases, alphas, ids, tier):
                             a = np.asarray(res["basic"][b])
                             ok = ok and a.shape == lead
                             v = float(a[idx]) if a.shape == lead else -1
-                            bs.append(int(v) if v == int(v) else -1)
+                            bs.append(int(v) if v == v and abs(v) < 1e9 and v == int(v) else -1)
                         e["basic"] = bs
                     for cn in CIS:
                         e["ci"][cn] = {}
@@ -165,7 +172,7 @@ def events(cases, alphas, ids, tier):
                     ok = ok and np.ndim(v) == 0 and not isinstance(v, np.ndarray)
                     e["rates"][r] = gamma.proj_rat(v, 1000)
                 if scale == "1":
-                    e["basic"] = [int(res["basic"][b]) for b in BASIC]
+                    e["basic"] = [int(x) if x == x and abs(x) < 1e9 and x == int(x) else -1 for x in (float(res["basic"][b]) for b in BASIC)]
                 for cn in CIS:
                     e["ci"][cn] = {}
                     for al in alphas:
@@ -186,7 +193,8 @@ def run(ctx: core.Ctx):
     env = {"CASES_FILE": cases_file, "TABLES_FILE": core.VERIF / "gen" / "tables.json"}
     ctx.model("MC_C04", MC_CFG.format(**par), env=env, workers=8)
     data = json.loads(cases_file.read_text())
-    cases, alphas = data["cases"], sorted(data["alphas"])
+    cases = data["cases"]
+    alphas = [str(a) for a in sorted(data["alphas"])] + list(TINY)      # permille keys + tiny levels
     ids = iter(range(1, 10**9))
     evs = events(cases, alphas, ids, ctx.tier)
     for c in cases:
@@ -210,7 +218,7 @@ def replay(ctx: core.Ctx, body):
     core.import_repo()
     c = body["case"]
     ids = iter(range(1, 10**9))
-    evs = events([c], [10, 50, 100, 500], ids, "thorough")
+    evs = events([c], ["10", "50", "100", "500"] + list(TINY), ids, "thorough")
     ctx.judge("Trace_C04", evs, cases=[c],
               env_extra={"TABLES_FILE": str(core.VERIF / "gen" / "tables.json")})
     return ctx.finish()
